@@ -7,20 +7,26 @@
 (* specification predicts and Shutdown's result.                              *)
 EXTENDS RefreshWorker, Json, CSV
 
+CONSTANT CancelUpTo   \* the driver cancels the Start context only while at most this many ticks were delivered
+
 VARIABLE whist
 wgvars == <<wvars, whist>>
 
 Last(s) == s[Len(s)]
 Bit(b) == IF b THEN 1 ELSE 0
 RefEv(r, k) == <<"refresh", r.who, Bit(r.cons), Bit(r.live), r.out, k>>
+StartEv == <<"start", Bit(sctx = "cancelled")>>
 
-WGInit == WInit /\ whist = <<>>
+WGInit == WInit /\ whist = <<StartEv>>
 WGNext ==
     \/ AskSchedule /\ whist' = Append(whist, <<"ask", Bit(askedWith' = nnow'), nd'>>)
     \/ Sleep /\ whist' = Append(whist, <<"sleep", timerD'>>)
     \/ fires < MaxTicks /\ DeliverTick /\ whist' = Append(whist, <<"tick">>)
     \/ \E o \in RefOutcomes : Refresh(o) /\ whist' = Append(whist, RefEv(Last(refs'), Len(refs')))
     \/ HandleError /\ whist' = Append(whist, <<"handle", Last(handled')>>)
+    \* the application cancels the Start context while the worker is parked
+    \/ lp = "waiting" /\ timer = "pending" /\ sp = "none" /\ ticks <= CancelUpTo /\ CancelStart
+       /\ whist' = Append(whist, <<"cancel">>)
     \/ lp = "waiting" /\ timer = "pending" /\ Shutdown /\ whist' = Append(whist, <<"shutdown">>)
     \/ \E o \in RefOutcomes : FinalRefresh(o) /\ whist' = Append(whist, RefEv(Last(refs'), Len(refs')))
     \/ WindowTick /\ whist' = Append(whist, <<"tick">>)     \* offered by the driver during the final refresh; never enabled
